@@ -80,10 +80,13 @@ pub extern "C" fn harness_execute() -> i32 {
 }
 
 /// Same, after an arbitrary *hidden* history: TEMP registers (inputs 20..33), call depth /
-/// sub level (34, 35), one call frame (36 dest, 37 ret bits), one call page (38).
+/// sub level (34, 35), one call frame (36 dest, 37 ret bits), one call page (38), and earlier
+/// individual writes of the carry / zero flag (45, 46) that the architectural F write below overrides.
 #[no_mangle]
 pub extern "C" fn harness_execute_hidden() -> i32 {
     let mut st = LlamaState::new();
+    st.set_reg(RegName::FC, vin(45) & 1);
+    st.set_reg(RegName::FZ, vin(46) & 1);
     for (i, r) in REGS.iter().enumerate() {
         st.set_reg(*r, vin(i as u32));
     }
